@@ -143,6 +143,8 @@ def seq_is_empty(e, c, a):
 
 @model(r"^Vec::<.*>::new$|^Vec::<.*>::with_capacity$|^VecDeque::<.*>::(new|with_capacity)$|<Vec<.*> as Default>::default$")
 def vec_new(e, c, a):
+    if a and isinstance(a[0], Int):
+        check_alloc(e, a[0], c)
     return VecObj([])
 
 
@@ -317,8 +319,19 @@ def vec_clear(e, c, a):
     e.load(a[0]).e.clear(); return UNIT
 
 
+def check_alloc(e, n, what):
+    """Allocation request of n elements: with an allocation limit set by the harness, a request that can exceed it is a finding."""
+    lim = getattr(e, "alloc_limit", None)
+    if lim is None:
+        return
+    if not e.branch(e.binop("Le", n, Int(n.w, n.s, lim))):
+        raise Panic("alloc_unbounded", what, f"allocation request is not bounded by the input size ({lim})")
+
+
 @model(r"^Vec::<.*>::reserve(_exact)?$|^String::reserve$|^Vec::<.*>::shrink_to_fit$|^VecDeque::<.*>::reserve$")
 def vec_reserve(e, c, a):
+    if len(a) > 1 and isinstance(a[1], Int):
+        check_alloc(e, a[1], c)
     return UNIT
 
 
